@@ -1,5 +1,5 @@
 """Per-property plans: which design check, which generated and random cases, which trace specification."""
-import json, os, re, time, collections
+import json, os, re, time, collections, shutil
 import vlib, fam_codec
 from vlib import Broken, log
 
@@ -189,9 +189,9 @@ def codec_family(ctx, n_quick, n_thorough, mc_cfgs_quick=("default",), extra_cov
     t1 = fam_codec.run_cases(ctx.pvh, p1, ctx.work, "mc")
     t2 = fam_codec.run_cases(ctx.pvh, p2, ctx.work, "rnd")     # sessions of 50 cases share one instance
     trace = os.path.join(ctx.work, "all_trace.ndjson")
-    with open(trace, "w") as f:
-        f.write(open(t1).read())
-        f.write(open(t2).read())
+    with open(trace, "wb") as f:
+        shutil.copyfileobj(open(t1, 'rb'), f)
+        shutil.copyfileobj(open(t2, 'rb'), f)
     verdicts, jst = vlib.judge(ctx.work, "TraceCodec", trace, ctx.env, ctx.open, tag="main")
     rule = ("S->C: every case of MCCodec's universe U1 (kind x position x boundary values x container length x configuration %s); "
             "C->S: %d seeded random types (depth<=3, <=5 fields, all kinds/options, named and recursive types) with boundary-biased values. "
@@ -293,9 +293,9 @@ def decode_family(ctx, kinds, n_quick, n_thorough, with_codec_sessions=False):
         ctx.case_files.append(pk)
         traces.append(fam_codec.run_cases(ctx.pvh, pk, ctx.work, kind))
     trace = os.path.join(ctx.work, "all_trace.ndjson")
-    with open(trace, "w") as f:
+    with open(trace, "wb") as f:
         for t in traces:
-            f.write(open(t).read())
+            shutil.copyfileobj(open(t, 'rb'), f)
     verdicts, jst = vlib.judge(ctx.work, "TraceDecode", trace, ctx.env, ctx.open, tag="main")
     all_traces = [trace]
     if with_codec_sessions:
@@ -368,9 +368,9 @@ def system_family(ctx, catname="MCCat", quick_idx="QuickIdx", relabel=None, extr
     t1 = fam_codec.run_cases(ctx.pvh, p1, ctx.work, "hist")
     t2 = fam_codec.run_cases(ctx.pvh, p2, ctx.work, "rhist")
     trace = os.path.join(ctx.work, "all_trace.ndjson")
-    with open(trace, "w") as f:
-        f.write(open(t1).read())
-        f.write(open(t2).read())
+    with open(trace, "wb") as f:
+        shutil.copyfileobj(open(t1, 'rb'), f)
+        shutil.copyfileobj(open(t2, 'rb'), f)
     ctx.judge_kw = dict(extra_consts='  CatFile = "%s"\n  Cat <- CatLit\n  Bufs = {"b1", "b2"}\n  MaxSteps = 100\n  GenIdx <- AllIdx\n' % catp,
                         defs="CatLit == " + vlib.tla_literal(cat))
     verdicts, jst = vlib.judge(ctx.work, "TraceSystem", trace, ctx.env, ctx.open, tag="main", **ctx.judge_kw)
@@ -426,9 +426,9 @@ def plan_C04(ctx):
     ctx.case_files = [p1, p2]
     traces = [run_hostile(ctx, p1, "mc"), run_hostile(ctx, p2, "mut")]
     trace = os.path.join(ctx.work, "all_trace.ndjson")
-    with open(trace, "w") as f:
+    with open(trace, "wb") as f:
         for t in traces:
-            f.write(open(t).read())
+            shutil.copyfileobj(open(t, 'rb'), f)
     ctx.run_kw = dict(mem=4096)
     verdicts, jst = vlib.judge(ctx.work, "TraceHostile", trace, ctx.env, ctx.open, tag="main")
     rule = ("S->C: every byte string up to length %d over {00 01 02 08 0a 0b 0d 12 13 7f 80 ff}%s x %d target types (one per codec, both slice forms, maps with "
@@ -560,9 +560,9 @@ def plan_C15(ctx):
     t1 = fam_codec.run_cases(ctx.pvh, p1, ctx.work, "mc")
     t2 = fam_codec.run_cases(ctx.pvh, p2, ctx.work, "rnd")
     trace = os.path.join(ctx.work, "all_trace.ndjson")
-    with open(trace, "w") as f:
-        f.write(open(t1).read())
-        f.write(open(t2).read())
+    with open(trace, "wb") as f:
+        shutil.copyfileobj(open(t1, 'rb'), f)
+        shutil.copyfileobj(open(t2, 'rb'), f)
     verdicts, jst = vlib.judge(ctx.work, "TraceJSONOut", trace, ctx.env, ctx.open, tag="main")
     rule = ("S->C: every well-nested call sequence of the JSONOutput machine up to %d output tokens (depth <= 3, two scalar kinds, names 'a' and ''), "
             "fresh and re-used after Reset; all 256 one-byte strings, all pairs%s over a 13-class byte alphabet as values and as field names; every "
@@ -708,9 +708,9 @@ def plan_C07(ctx):
     t2 = fam_codec.run_cases(ctx.pvh, p2, ctx.work, "stress", budget="120s")
     t3 = fam_codec.run_cases(racebin, p3, ctx.work, "race", budget="300s")
     trace = os.path.join(ctx.work, "all_trace.ndjson")
-    with open(trace, "w") as f:
+    with open(trace, "wb") as f:
         for t in (t1, t2, t3):
-            f.write(open(t).read())
+            shutil.copyfileobj(open(t, 'rb'), f)
     ctx.racebin = racebin
     verdicts, jst = vlib.judge(ctx.work, "TraceSched", trace, ctx.env, ctx.open, tag="main")
     # 4. the yield-hook logs of the scheduled executions, validated action by action against CodecBuild
@@ -783,9 +783,9 @@ def plan_C18(ctx):
     t1 = fam_codec.run_cases(ctx.pvh, p1, ctx.work, "mc")
     t2 = fam_codec.run_cases(ctx.pvh, p2, ctx.work, "rnd")
     trace = os.path.join(ctx.work, "all_trace.ndjson")
-    with open(trace, "w") as f:
-        f.write(open(t1).read())
-        f.write(open(t2).read())
+    with open(trace, "wb") as f:
+        shutil.copyfileobj(open(t1, 'rb'), f)
+        shutil.copyfileobj(open(t2, 'rb'), f)
     verdicts, jst = vlib.judge(ctx.work, "TracePrim", trace, ctx.env, ctx.open, tag="main")
     rule = ("S->C: MCPrim's universe (all 2^j, 2^j+-1, 7k-bit boundaries, every canonical limb sequence of length <= %d over "
             "{0,1,2,63,64,65,126,127}; tags for wire types 0..5; Skip over well-formed fields of every wire type and all their truncations, "
